@@ -93,6 +93,74 @@ pub const DIRTY: &[&str] = &[
     "\u{1b}]\u{1b}", "\u{1b}[1;\n2m",
 ];
 
+/// Blocks from which `Class::Scalars` draws characters (inclusive ranges).
+pub const BLOCKS: &[(u32, u32)] = &[
+    (0x21, 0x7e),       // printable ASCII
+    (0xa0, 0xff),       // Latin-1 supplement (NBSP, soft hyphen, accented letters)
+    (0x100, 0x24f),     // Latin extended
+    (0x300, 0x36f),     // combining marks
+    (0x370, 0x3ff),     // Greek
+    (0x400, 0x4ff),     // Cyrillic
+    (0x5d0, 0x5ea),     // Hebrew letters
+    (0x600, 0x6ff),     // Arabic
+    (0x900, 0x97f),     // Devanagari
+    (0xe00, 0xe7f),     // Thai (no spaces between words)
+    (0x1100, 0x11ff),   // Hangul jamo
+    (0x2000, 0x206f),   // general punctuation (spaces, ZWSP, joiners, hyphens, line/paragraph separators)
+    (0x20a0, 0x20bf),   // currency
+    (0x2190, 0x21ff),   // arrows
+    (0x2500, 0x257f),   // box drawing
+    (0x2600, 0x27bf),   // misc symbols, dingbats
+    (0x3000, 0x303f),   // CJK punctuation
+    (0x3040, 0x30ff),   // Hiragana, Katakana
+    (0x4e00, 0x9fff),   // CJK unified ideographs
+    (0xac00, 0xd7a3),   // Hangul syllables
+    (0xfe00, 0xfe0f),   // variation selectors
+    (0xff00, 0xffef),   // halfwidth and fullwidth forms
+    (0x1f1e6, 0x1f1ff), // regional indicators
+    (0x1f300, 0x1f64f), // pictographs, emoticons
+    (0x1f900, 0x1f9ff), // supplemental symbols
+    (0xe0020, 0xe007f), // tags
+];
+
+/// One random scalar value from a random block (never ESC, CR or LF).
+pub fn random_scalar(r: &mut Rng) -> char {
+    loop {
+        let (lo, hi) = *r.pick(BLOCKS);
+        let cp = lo + r.below((hi - lo + 1) as usize) as u32;
+        if let Some(c) = char::from_u32(cp) {
+            if c != '\u{1b}' && c != '\n' && c != '\r' {
+                return c;
+            }
+        }
+    }
+}
+
+/// A short word of random scalars, usually from a single block.
+pub fn random_scalar_word(r: &mut Rng) -> String {
+    let n = r.range(1, 5);
+    let mut s = String::new();
+    if r.chance(2, 3) {
+        let (lo, hi) = *r.pick(BLOCKS);
+        for _ in 0..n {
+            let cp = lo + r.below((hi - lo + 1) as usize) as u32;
+            if let Some(c) = char::from_u32(cp) {
+                if c != '\u{1b}' && c != '\n' && c != '\r' {
+                    s.push(c);
+                }
+            }
+        }
+    } else {
+        for _ in 0..n {
+            s.push(random_scalar(r));
+        }
+    }
+    if s.is_empty() {
+        s.push('x');
+    }
+    s
+}
+
 #[derive(Clone, Copy, Debug, PartialEq, Eq, Hash)]
 pub enum Class {
     Ascii,
@@ -104,6 +172,8 @@ pub enum Class {
     Clean,
     Dirty,
     Prefix,
+    /// words made of random scalar values from many Unicode blocks
+    Scalars,
 }
 
 /// Per-batch mix of token classes.
@@ -176,6 +246,7 @@ impl Mix {
             }
             Class::Clean => clean_seq(r),
             Class::Dirty => r.pick(DIRTY).to_string(),
+            Class::Scalars => random_scalar_word(r),
             Class::Prefix => {
                 let mut s = String::new();
                 for _ in 0..r.range(1, 3) {
@@ -210,16 +281,17 @@ pub const ALL_CLASSES: &[Class] = &[
     Class::Clean,
     Class::Dirty,
     Class::Prefix,
+    Class::Scalars,
 ];
 
 pub const CLEAN_CLASSES: &[Class] =
-    &[Class::Ascii, Class::Wide, Class::Zero, Class::Punct, Class::Space, Class::Para, Class::Clean, Class::Prefix];
+    &[Class::Ascii, Class::Wide, Class::Zero, Class::Punct, Class::Space, Class::Para, Class::Clean, Class::Prefix, Class::Scalars];
 
 pub const CLEAN_LINE_CLASSES: &[Class] =
-    &[Class::Ascii, Class::Wide, Class::Zero, Class::Punct, Class::Space, Class::Clean, Class::Prefix];
+    &[Class::Ascii, Class::Wide, Class::Zero, Class::Punct, Class::Space, Class::Clean, Class::Prefix, Class::Scalars];
 
 pub const LINE_CLASSES: &[Class] =
-    &[Class::Ascii, Class::Wide, Class::Zero, Class::Punct, Class::Space, Class::Clean, Class::Dirty, Class::Prefix];
+    &[Class::Ascii, Class::Wide, Class::Zero, Class::Punct, Class::Space, Class::Clean, Class::Dirty, Class::Prefix, Class::Scalars];
 
 /// Token count distribution: mostly short, sometimes long.
 pub fn ntok(r: &mut Rng) -> usize {
